@@ -85,7 +85,7 @@ def conds(tier):
     q = tier == "quick"
     cs = []
     cp = [P("c%d" % i, "int", 1, None) for i in range(1, NC + 1)]
-    for (m, n) in ([(1, 3), (1, 5), (1, 6), (2, 3), (2, 4)] if q else [(1, 3), (1, 4), (1, 5), (1, 6), (1, 7), (2, 3), (2, 4), (3, 4), (2, 5), (3, 5)]):
+    for (m, n) in ([(1, 3), (1, 5), (1, 6), (2, 3), (2, 4)] if q else [(1, 3), (1, 4), (1, 5), (1, 6), (1, 7), (2, 3), (2, 4), (3, 4), (2, 5)]):
         hi = 3 if q else 4
         ps = e1_params(m, n) + cp + [P("opt", "bool"), P("mk", "bool"), P("v", "int", 0, hi), P("h", "int", 0, hi),
                                      P("nf", "bool"), P("r", "bool"), P("sp", "bool")]
